@@ -456,19 +456,17 @@ class TemplateString(Expression):
         return isinstance(other, TemplateString) and self.template == other.template
 
     def __str__(self) -> str:
-        quote = _choose_quote(
-            "".join(
-                e.value if isinstance(e, StringLiteral) else f"${{{e}}}"
-                for e in self.template
-            )
-        )
-        # Only literal text is escaped. Interpolated expressions are lexed as
-        # expressions, not as part of the string.
-        parts = "".join(
-            _escape_string(e.value, quote)
-            if isinstance(e, StringLiteral)
-            else f"${{{e}}}"
+        # Interpolated expressions are written once (they can hold template
+        # strings themselves) and verbatim: they are lexed as expressions, not
+        # as part of the string. Only literal text is escaped.
+        parts = [
+            e.value if isinstance(e, StringLiteral) else f"${{{e}}}"
             for e in self.template
+        ]
+        quote = _choose_quote("".join(parts))
+        parts = "".join(
+            _escape_string(e.value, quote) if isinstance(e, StringLiteral) else part
+            for e, part in zip(self.template, parts)
         )
         return f"{quote}{parts}{quote}"
 
